@@ -1,6 +1,6 @@
 From Coq Require Import List Bool NArith Lia Arith Wf_nat.
 Import ListNotations.
-Require Import Skel.
+From STFS Require Import Skel.
 
 Section Sound.
 Variable ev fname : Type.
@@ -236,4 +236,3 @@ Proof.
 Qed.
 
 End Sound.
-Print Assumptions post_sound.
